@@ -114,7 +114,14 @@ func C19(p *load.Prog, r *report.Report) {
 		r.OK("C19.schedule", "(*Element).Multiply", fmt.Sprintf("%d secret-dependent branches: %d with identical arm traces, %d the exempt IsOne shortcut; no secret-dependent index, loop exit or external call; trace length %d function entries", nTainted, nEqual, nExempt, absint.TraceLen(it.Trace)))
 	}
 	// the ladder must actually have been seen: a rule that matched nothing passes vacuously
-	r.RequireCount("C19.ladder", "secret-dependent branches with equal arms or secret-indexed operand selections (one per scalar bit; a vacuity guard, not the ladder length)", nEqual+nSelect, 128)
+	r.Analysed["field_primitives_on_secret_operands"] = it.TaintedLeafCalls
+	if nEqual+nSelect < 128 && it.TaintedLeafCalls >= 2000 {
+		// a ladder without branches or table lookups (conditional swaps through the constant-time select): the secret
+		// reaches the arithmetic through data only
+		r.RequireCount("C19.ladder", "field primitives executed on secret-dependent operands (a vacuity guard: the scalar reaches the ladder through data, e.g. conditional swaps)", it.TaintedLeafCalls, 2000)
+	} else {
+		r.RequireCount("C19.ladder", "secret-dependent branches with equal arms or secret-indexed operand selections (one per scalar bit; a vacuity guard, not the ladder length)", nEqual+nSelect, 128)
+	}
 	// Fiat primitives and the field wrappers reached must be branch-free or have constant branches only: checked dynamically above;
 	// additionally the generated primitives are checked structurally.
 	var leaves []string
